@@ -56,9 +56,9 @@ fn d2(v: i64, dp: u32) -> String { Decimal::new(v, dp).normalize().to_string() }
 
 pub fn export_strategy() -> BoxedStrategy<Export> {
     let kind = prop_oneof![5 => Just("BUY"), 4 => Just("SELL"), 1 => Just("DIS"), 1 => Just("LIQ"), 2 => Just("DIV"), 3 => Just("FXT"), 2 => Just("IGN")];
-    let row = (kind, 0u16..400, 0u8..3, 0usize..5, 1i64..50000, 1i64..500000, 0i64..2000, any::<bool>(), 0usize..3, any::<u16>());
+    let row = (kind, 0u16..400, 0u8..3, 0usize..5, 1i64..50000, 1i64..500000, 0i64..2000, any::<bool>(), 0usize..6, any::<u16>());
     (proptest::collection::vec(row, 1..25), proptest::collection::vec(any::<u16>(), 24), any::<u8>(), any::<bool>()).prop_map(|(rs, seeds, lay, no_sort)| {
-        let accounts = [("12345678", "Individual margin"), ("87654321", "Individual TFSA"), ("5550001", "Individual RRSP")];
+        let accounts = [("12345678", "Individual margin"), ("87654321", "Individual TFSA"), ("5550001", "Individual RRSP"), ("4440002", "Individual tfsa"), ("3330003", "Spousal Rrsp"), ("2220004", "Family RESP")];
         let symbols = ["FOO", "BAR.TO", "H038778", "XYZ", ".TSLA"];
         let mut rows: Vec<Activity> = vec![];
         for (kind, day, lag, sym, qty, px, comm, usd, acct, x) in rs {
@@ -270,10 +270,10 @@ fn xlsx_end_to_end(tier: Tier, seed: u64, idx: u64, of: u64, stats: &mut Stats) 
                     // options: filters give sub-multisets; --no-fx drops exactly the FX rows
                     if let Ok((true, o2, _)) = run(&["--account=", "--no-fx"]) { let want_nofx = want.iter().filter(|w| !w.security.ends_with(".FX")).count(); if count_rows(&o2).len() != want_nofx { fail(stats, format!("--no-fx: {} rows, expected {want_nofx}", count_rows(&o2).len())); } }
                     if let Ok((true, o3, _)) = run(&["--account=", "--security", "^FOO$"]) { let w = want.iter().filter(|w| w.security == "FOO").count(); if count_rows(&o3).len() != w { fail(stats, format!("--security ^FOO$: {} rows, expected {w}", count_rows(&o3).len())); } }
-                    if let Ok((true, o4, _)) = run(&["--account", "TFSA"]) { let w = want.iter().filter(|w| w.registered).count(); let got = count_rows(&o4).len(); if got > want.len() || (e.rows.iter().all(|a| !a.cells["Account Type"].contains("RRSP")) && got != w) { fail(stats, format!("--account TFSA: {got} rows, expected {w}")); } }
+                    // (--account patterns are checked below against the joined account string)
                     // --account is a regular expression over '<account type> <account number>' (one string): the whole string, either part
                     let mut accounts: Vec<(String, String)> = e.rows.iter().map(|a| (a.cells["Account Type"].clone(), a.cells["Account #"].clone())).collect(); accounts.sort(); accounts.dedup();
-                    for (ty, num) in accounts.iter().take(2) {
+                    for (ty, num) in accounts.iter().take(3) {
                         let only = |pred: &dyn Fn(&str) -> bool| -> usize { let sub = Export { rows: e.rows.iter().filter(|a| pred(&format!("{} {}", a.cells["Account Type"], a.cells["Account #"]))).cloned().collect(), layout: e.layout.clone(), numeric_cols: e.numeric_cols.clone(), no_sort: e.no_sort }; expected(&sub).0.len() };
                         let joined = format!("{ty} {num}");
                         for pat in [format!("^{}$", regex::escape(&joined)), regex::escape(&joined), format!("^{}", regex::escape(ty)), format!("{}$", regex::escape(num)), format!("{} {}", &ty[ty.len().saturating_sub(3)..], &num[..2.min(num.len())])] {
@@ -296,7 +296,7 @@ fn xlsx_end_to_end(tier: Tier, seed: u64, idx: u64, of: u64, stats: &mut Stats) 
 }
 
 pub fn def() -> PropDef {
-    let mut d = PropDef::new("C18", "well-formed Questrade activity exports: 1-25 activities over BUY, SELL, DIS, LIQ, DIV, FXT pairs (either leg first) and the documented ignored codes; margin / TFSA / RRSP accounts; CAD and USD; signed quantities and commissions as Questrade writes them; the H038778 alias; x column layout (permutation, extra named columns, one or two blank-headed columns, a column headed by a number or a boolean cell, numeric vs string cells). In memory through office::Range -> sheet_to_txs, and end to end for a sample (real .xlsx via rust_xlsxwriter -> run_with_args -> CSV, with --no-fx / --security / --account / --usd-exchange-rate). Oracles: multiset of emitted rows = the generator's own record of trade activities and FX rows (dates, |qty|, price, |commission|, currency, registered affiliate, implied FXT rate); signed USD.FX total = USD cash flow (exact); output independent of the layout; sorted output ordered by settlement date; every row accepted by acb's parser, rate loader and Tx conversion. Non-trivial = export with a USD trade and an FXT pair, or a layout with a blank or non-text header cell. Distinct = distinct case content.");
+    let mut d = PropDef::new("C18", "well-formed Questrade activity exports: 1-25 activities over BUY, SELL, DIS, LIQ, DIV, FXT pairs (either leg first) and the documented ignored codes; margin / TFSA / RRSP / RESP accounts (type spelled in upper, lower and mixed case); CAD and USD; signed quantities and commissions as Questrade writes them; the H038778 alias; x column layout (permutation, extra named columns, one or two blank-headed columns, a column headed by a number or a boolean cell, numeric vs string cells). In memory through office::Range -> sheet_to_txs, and end to end for a sample (real .xlsx via rust_xlsxwriter -> run_with_args -> CSV, with --no-fx / --security / --account / --usd-exchange-rate). Oracles: multiset of emitted rows = the generator's own record of trade activities and FX rows (dates, |qty|, price, |commission|, currency, registered affiliate, implied FXT rate); signed USD.FX total = USD cash flow (exact); output independent of the layout; sorted output ordered by settlement date; every row accepted by acb's parser, rate loader and Tx conversion. Non-trivial = export with a USD trade and an FXT pair, or a layout with a blank or non-text header cell. Distinct = distinct case content.");
     d.assumptions = vec!["ledger-level acceptance (e.g. USD.FX over-sale) is not the converter's contract; rows are checked for row-level acceptance", "numeric cells go through the same f64 -> Decimal conversion on both sides"];
     d.subs.push(Box::new(Sub::<Export> { name: "sheet", cases_quick: 20_000, cases_thorough: 800_000, strategy: Box::new(|_| export_strategy()), to_json: Export::to_json, from_json: Export::from_json, check }));
     d.extra = Some(xlsx_end_to_end);
